@@ -59,6 +59,14 @@ class Device:
         self._js += 1
         heapq.heappush(conn['jobs'], (self.sim.now + delay, self._js, data, n))
 
+    def schedule_reply(self, conn, delay, reply, n, gap=0):
+        """a reply; in the variable-length protocol its header byte and its body leave the device separately"""
+        if self.plan.get('varlen') and self.mode == 'bytes' and len(reply) > 1:
+            self.schedule(conn, delay, reply[:1], n)
+            self.schedule(conn, delay + gap, reply[1:])
+        else:
+            self.schedule(conn, delay, reply, n)
+
     def _writer(self, conn):
         sim = self.sim
         jobs = conn['jobs']
@@ -126,8 +134,9 @@ class Device:
         reply = (b'ans:' + cmd + self.eol) if self.mode == 'string' else (b'A' + cmd[1:3] + b'!')
         kind = step.get('kind', 'echo')
         delay = step.get('delay', 0)
+        gap = step.get('gap', 0)
         if kind == 'echo':
-            self.schedule(conn, delay, reply, n)
+            self.schedule_reply(conn, delay, reply, n, gap)
         elif kind == 'garbage':
             # every unsolicited message is unique, so that a returned reply maps to one place in the byte stream
             self.njunk = getattr(self, 'njunk', 0) + 1
@@ -135,8 +144,8 @@ class Device:
             if step.get('after', 0.3) == 0:
                 self.schedule(conn, delay, reply + junk, n)     # same segment as the reply
             else:
-                self.schedule(conn, delay, reply, n)
-                self.schedule(conn, delay + step['after'], junk)
+                self.schedule_reply(conn, delay, reply, n, gap)
+                self.schedule(conn, delay + gap + step['after'], junk)
         elif kind == 'fragment':
             # an incomplete message instead of the reply, then silence
             self.njunk = getattr(self, 'njunk', 0) + 1
@@ -149,17 +158,21 @@ class Device:
             self.schedule(conn, delay, reply[:max(1, len(reply) // 2)], n)
             self.schedule(conn, delay, ('close',))
         elif kind == 'close_after':
-            self.schedule(conn, delay, reply, n)
-            self.schedule(conn, delay + 0.001, ('close',))
+            self.schedule_reply(conn, delay, reply, n, gap)
+            self.schedule(conn, delay + gap + 0.001, ('close',))
         for f in step.get('faults', ()):
             self.schedule(conn, f.get('delay', 0), tuple(f['fault']))
 
 
-def make_classes(mode, rec, uidgen):
+def make_classes(mode, rec, uidgen, varlen=False):
     ioclass = StringIO if mode == 'string' else BytesIO
+    rlen = 1 if varlen else 4
 
     class SimIO(ioclass):
-        pass
+        if varlen and mode == 'bytes':
+            def getFullReply(self, request, replyheader):
+                # variable-length protocol: the header announces a body, which is read separately
+                return replyheader + self.readBytes(3)
 
     class User(HasIO, Readable):
         ioClass = SimIO
@@ -174,7 +187,7 @@ def make_classes(mode, rec, uidgen):
                     reply = self.communicate(f'p{uid}')
                     r['result'] = ('ok', [reply])
                 else:
-                    reply = self.io.communicate(b'P' + uid.to_bytes(2, 'big') + b'?', 4)
+                    reply = self.io.communicate(b'P' + uid.to_bytes(2, 'big') + b'?', rlen)
                     r['result'] = ('ok', [reply])
             except Exception as e:   # noqa
                 r['result'] = ('exc', type(e).__name__, str(e)[:200])
@@ -214,7 +227,7 @@ class C16(Check):
                    'poll thread attempts once per pollinterval by construction']
     PROBES = ('c16.concurrent-callers', 'c16.multicomm', 'c16.late-reply', 'fault.device-close', 'fault.device-silent',
               'fault.device-refuse', 'c16.reconnect', 'c16.garbage', 'c16.bytes-mode', 'c16.string-mode',
-              'c16.two-byte-eol')
+              'c16.two-byte-eol', 'c16.variable-length-replies')
 
     def gen_case(self, rng, tier):
         mode = rng.choice(['string', 'string', 'bytes'])
@@ -235,6 +248,8 @@ class C16(Check):
             kind = rng.choice(['echo', 'echo', 'echo', 'garbage', 'garbage']
                               + (['none', 'fragment', 'close_before', 'close_mid', 'close_after'] if faulty else []))
             step = {'kind': kind, 'delay': rng.choice([0, 0, 0.01, 0.2, 0.9] + ([timeout + 0.6, timeout + 1.7] if faulty else []))}
+            if rng.random() < 0.5:
+                step['gap'] = rng.choice([0.001, 0.02, 0.2])     # between header and body (variable-length protocol)
             if kind == 'garbage':
                 step['after'] = rng.choice([0, 0, 0.05, 0.5, 2.0])
             if faulty and rng.random() < 0.15:
@@ -252,7 +267,9 @@ class C16(Check):
                  'wait_before': rng.choice([0, 0, 0.05]), 'reconnect_interval': rng.choice([3.0, 10.0]),
                  'user_poll': rng.choice([0.5, 2.0]), 'faulty': faulty, 'refuse_first': rng.random() < 0.1,
                  # a two-byte end of line can be cut in two by the segmentation of the network
-                 'eol': rng.choice(['\n', '\n', '\r\n'])}
+                 'eol': rng.choice(['\n', '\n', '\r\n']),
+                 # byte-oriented protocol with replies of variable length: getFullReply reads the body separately
+                 'varlen': rng.random() < 0.5}
         return {'shape': shape, 'ops': ops, 'faults': faults}
 
     def shrink_candidates(self, case):
@@ -273,7 +290,8 @@ class C16(Check):
         mode = shape['mode']
         sim.count('c16.bytes-mode' if mode == 'bytes' else 'c16.string-mode')
         world = ctx['world'] = env.World(sim, shape['seg_bias'], shape['lat_bias'])
-        dev = ctx['dev'] = Device(world, {'replies': shape['replies'], 'eol': shape.get('eol')}, mode)
+        dev = ctx['dev'] = Device(world, {'replies': shape['replies'], 'eol': shape.get('eol'),
+                                          'varlen': shape.get('varlen')}, mode)
         if shape.get('eol') == '\r\n' and mode == 'string':
             sim.count('c16.two-byte-eol')
         if shape['refuse_first']:
@@ -284,7 +302,11 @@ class C16(Check):
         def uidgen():
             uid[0] += 1
             return uid[0]
-        SimIO, User = make_classes(mode, rec, uidgen)
+        varlen = bool(shape.get('varlen')) and mode == 'bytes'
+        rlen = 1 if varlen else 4
+        if varlen:
+            sim.count('c16.variable-length-replies')
+        SimIO, User = make_classes(mode, rec, uidgen, varlen)
         ctx['cleanup'] = [lambda: env.forget_classes(SimIO, User), HasIO.ioDict.clear]
         HasIO.ioDict.clear()
         cfg = {
@@ -319,7 +341,7 @@ class C16(Check):
                         if mode == 'string':
                             r['result'] = ('ok', [io.communicate(f'c{r["uid"]}')])
                         else:
-                            r['result'] = ('ok', [io.communicate(b'C' + r['uid'].to_bytes(2, 'big') + b'?', 4)])
+                            r['result'] = ('ok', [io.communicate(b'C' + r['uid'].to_bytes(2, 'big') + b'?', rlen)])
                     elif op['kind'] == 'write':
                         r['uid'] = uidgen()
                         if mode == 'string':
@@ -335,7 +357,7 @@ class C16(Check):
                             reqs = [(f'{"c" if exp else "w"}{u}', exp, d) for u, (exp, d) in zip(r['uids'], op['reqs'])]
                             r['result'] = ('ok', list(io.multicomm(reqs)))
                         else:
-                            reqs = [(b'C' + u.to_bytes(2, 'big') + b'?', 4, d) for u, (_exp, d) in zip(r['uids'], op['reqs'])]
+                            reqs = [(b'C' + u.to_bytes(2, 'big') + b'?', rlen, d) for u, (_exp, d) in zip(r['uids'], op['reqs'])]
                             r['result'] = ('ok', list(io.multicomm(reqs)))
                 except Exception as e:   # noqa
                     r['result'] = ('exc', type(e).__name__, str(e)[:200], isinstance(e, CommunicationFailedError))
@@ -526,6 +548,8 @@ class C16(Check):
                     tok = token(rep)
                     if tok == u:
                         continue
+                    if not isinstance(tok, tuple) and tok not in rx_by_uid:
+                        tok = ('garbled', rep)      # looks like a reply, but to a command nobody sent: misaligned bytes
                     stale = read_before_send(u, rep)
                     if stale:
                         res.append(Violation('C16.stale-returned', 'bytes-read-before-send',
